@@ -274,10 +274,50 @@ def _same_text(a, b):
     return True
 
 
+LITERALS = {
+    'circle': 'circle(10.5,20.25,3.5)', 'ellipse': 'ellipse(10.5,20.25,3.5,2.25,30)', 'box': 'box(10.5,20.25,3.5,2.25,30)',
+    'polygon': 'polygon(1,2,7.5,3,4,9.25)', 'annulus': 'annulus(10.5,20.25,3.5,5.5)', 'ellipse-annulus': 'ellipse(10.5,20.25,3.5,2.25,5.5,4.25,30)',
+    'box-annulus': 'box(10.5,20.25,3.5,2.25,5.5,4.25,30)', 'line': 'line(1,2,7.5,3)', 'point': 'point(10.5,20.25)', 'text': 'text(10.5,20.25)',
+}
+LITERAL_PROPS = ['fill=1 color=red width=2', 'dash=1 dashlist=8 3 color=#00ff7f', 'fill=0 select=0 move=0 tag={t 1} tag={t2}', 'fill=1 text={a;b} font="helvetica 12 bold roman"']
+
+
+def h_fixed_literal(kind, pi, frame, m):
+    """parse -> serialise -> parse is a fixed point, starting from DS9 text that carries properties (fill, dash, flags, tags)"""
+    from regions import Regions
+    props = LITERAL_PROPS[pi]
+    if kind == 'text' and 'text=' not in props:
+        props += ' text={label}'
+    if kind == 'point':
+        props += ' point=x 7'
+    body = LITERALS[kind]
+    if frame != 'image':
+        body = body.replace('10.5,20.25', '150.5,-20.25')
+    text = f'# Region file format: DS9\n{frame}\n{body} # {props}\n-{body} # {props}\n'
+    with warnings.catch_warnings():
+        warnings.simplefilter('ignore')
+        first = Regions.parse(text, format='ds9')
+        out = first.serialize(format='ds9', precision=6)
+        second = Regions.parse(out, format='ds9')
+    m.require('literal is parsed (one region per line)', len(first) == 2)
+    m.require('fixed point: same number of regions', len(second) == len(first))
+    if len(second) != len(first):
+        return
+    for j, (a, b) in enumerate(zip(first, second)):
+        m.require(f'fixed point #{j}: same class', type(a) is type(b))
+        m.require(f'fixed point #{j}: region equal', a == b)
+        m.require(f'fixed point #{j}: meta equal', dict(a.meta) == dict(b.meta))
+        m.require(f'fixed point #{j}: visual equal', dict(a.visual) == dict(b.visual))
+
+
 def harnesses(tier):
     P = functools.partial
     q = tier == 'quick'
     hs = []
+    for ki, kind in enumerate(LITERALS):
+        for pi in (range(len(LITERAL_PROPS)) if not q else [ki % len(LITERAL_PROPS), (ki + 1) % len(LITERAL_PROPS)]):
+            for frame in (['image', 'fk5'] if kind not in ('polygon', 'line') else ['image']):
+                hs.append((f'literal-fixed-point/{kind}/props{pi}/{frame}', P(h_fixed_literal, kind, pi, frame)))
     mk_names = list(METAS)
     k = 0
     for kind in PIX_SHAPES + ['regpoly']:
@@ -308,6 +348,8 @@ def harnesses(tier):
         (['circle', 'compound'], ['plain', 'plain'], ['absent', 'absent'], ['image', 'image']),
         (['circle', 'circle', 'ellipse'], ['plain', 'plain', 'plain'], ['absent', 'absent', 'absent'], ['image', 'supergalactic', 'image']),
         (['compound'], ['plain'], ['absent'], ['image']),
+        (['circle', 'circle', 'ellipse'], ['plain', 'plain', 'plain'], ['absent', 0, False], ['fk5', 'galactic', 'image']),   # mixed frames + excluded members
+        (['rectangle', 'circle'], ['plain', 'plain'], [0, 'absent'], ['icrs', 'image']),
     ]
     for i, (ks, ms, incs, frs) in enumerate(lists):
         hs.append((f'list{i}/{"+".join(ks)}/{"+".join(frs)}', P(h_roundtrip, ks, ms, incs, 5, i, frs)))
@@ -325,7 +367,7 @@ META = {
     'bounds': {'quick': {'pixel regions': 'all ten DS9 shapes + regular polygon; every coordinate and size symbolic (decimal tokens), precision in {1, 5}',
                          'sky regions': '7 shapes x 5 celestial frames, concrete coordinates / sizes, precision 6',
                          'angles': 'concrete: 0, 30, -45, 200 deg, 1 rad', 'include': ['absent', False, 0],
-                         'metadata vocabularies': list(METAS), 'lists': '9 lists of 1-3 regions (shared / distinct metadata, all excluded, mixed frames, unsupported members at each position)'},
+                         'metadata vocabularies': list(METAS), 'lists': '11 lists of 1-3 regions (shared / distinct metadata, all excluded, mixed frames, mixed frames with excluded members, unsupported members at each position)', 'literal fixed points': '10 shapes x 2 property lists (fill, dash, flags, tags, fonts) x image / fk5, each included and excluded'},
                'thorough': {'precision': [1, 3, 5, 8, 12], 'include': ['absent', True, False, 0, 1], 'sky shapes': 'all ten'}},
     'outside_claim': ['numeric round trip of sky coordinates / angular sizes goes through astropy (SkyCoord.to_string, Angle parsing) on the concrete values only',
                       'rotation angles are concrete (astropy Quantity.to_string needs floats)',
